@@ -482,6 +482,12 @@ def run(plan, stats):
 # --------------------------------------------------------------------------------------------
 # adversarial family
 # --------------------------------------------------------------------------------------------
+OPTION_SHAPES = [('globals-none', {'globals': None}), ('globals-absent', {'globals': '<absent>'}),
+                 ('logFn-none-debug', {'logFn': None}), ('logFn-absent-debug', {'logFn': '<absent>'}),
+                 ('fetchFn-none', {'fetchFn': None}), ('urlFn-none', {'urlFn': None}),
+                 ('systemPrefix-none', {'systemPrefix': None}), ('debug-none', {'debug': None})]
+
+
 def pathological_globals():
     """Host-supplied BareScript values that make serialisation / traversal fail inside library code: an array
     nested deeper than the interpreter's recursion limit, the same for objects, and a cyclic array. They are only
@@ -554,6 +560,22 @@ def run_adversarial(plan, stats):
             if not debug and any(isinstance(t, str) and t.startswith('BareScript:') for t in logs):
                 viols.append(Violation(PROP, 'report', 'failure-report-without-debug', {'lines': logs[:3]}))
                 break
+        # the same program under an unusual but supported configuration: option keys the runtime reads with
+        # "None means absent" given as None, or left out (hostObserve may then be undefined: a documented runtime
+        # error); only containment is judged
+        if not viols and plan.get('seed', 0) % 3 == 0:
+            name, patch = OPTION_SHAPES[(plan.get('seed', 0) // 3) % len(OPTION_SHAPES)]
+            p = dict(plan)
+            p['debug'] = True
+            p['host_globals'] = pathological_globals() if wants_pathological else {}
+            p['host_globals'].update(datetime_globals())
+            lib.random = _random.Random(plan.get('seed', 0))
+            out = run_real(p, limit=0, sim_options=True, max_starts=400000, globals_=dict(p['host_globals']),
+                           options_patch=patch)
+            stats.c['evaluations'] += 1
+            stats.faults['option_shape:' + name] += 1
+            dig.append(out.summary())
+            check_escape_value(out, viols, 'options:' + name, producers_of(plan))
     finally:
         lib.random = saved_random
     if not viols and False in outs and True in outs:
